@@ -456,10 +456,10 @@ def run(ctx):
             return
         lines = [rp["line"]]
     else:
-        n = ctx.n(4000, 150000)
+        n = ctx.n(4000, 400000)
         lines = vlib.corpus_lines("C20") + finalize([gen_op(ctx.rng) for _ in range(n)])
     for ln in lines:
         ctx.stat("op:" + ln.split("\t")[1])
     strlib.correspond2(ctx, lines, oracle=oracle, minimise=minimise, classify=classify, label="Std::String native methods")
     if not ctx.replay:
-        program_tie(ctx, ctx.n(150, 3000))
+        program_tie(ctx, ctx.n(150, 6000))
